@@ -155,13 +155,14 @@ type sentMsg struct {
 }
 
 type schemeRig struct {
-	scheme  *threshold.Scheme
-	mu      sync.Mutex
-	sent    []sentMsg
-	onSend  func(sentMsg)
-	kg      *scriptedBackend // most recent key generation backend
-	signer  *scriptedBackend // most recent signing backend
-	signers []*scriptedBackend
+	scheme        *threshold.Scheme
+	mu            sync.Mutex
+	sent          []sentMsg
+	onSend        func(sentMsg)
+	kg            *scriptedBackend // most recent key generation backend
+	signer        *scriptedBackend // most recent signing backend
+	signers       []*scriptedBackend
+	failShareData bool // SetShareData of the signers created from now on fails
 }
 
 func (rg *schemeRig) takeSent() []sentMsg {
@@ -204,6 +205,9 @@ func newSchemeRig(self uint16, threshold_ int, membership map[tss.UniversalID]ts
 		b := newScriptedBackend(id)
 		b.permissive = permissive
 		rg.mu.Lock()
+		if rg.failShareData {
+			b.setShareErr = fmt.Errorf("scripted: share data unusable")
+		}
 		rg.signer = b
 		rg.signers = append(rg.signers, b)
 		rg.mu.Unlock()
